@@ -376,7 +376,7 @@ Proof. unfold body_if. pose proof (parse_patch_body_fueled p s). nf. Qed.
 
 Lemma Never_process_section o st should p s : Never (process_section o st should p s).
 Proof.
-  unfold process_section.
+  unfold process_section, section_tail.
   pose proof Never_checked. pose proof Never_refuse. pose proof Never_body_if. pose proof Never_ensure. pose proof Never_backup.
   pose proof Never_write_now. pose proof Never_remove. pose proof apply_patch_fueled.
   nf.
